@@ -146,7 +146,7 @@ def check_cases(cases: list[dict], rep: Report, known: dict) -> None:
         with instrument.observing() as log:
             def loop():
                 nonlocal cur, repeated, warned
-                for _ in range(5000):
+                for _ in range(min(4 * n * n + 8, 2000000) + 1):
                     if cur._is_fully_reduced:
                         return
                     n0 = len(log.events)
@@ -178,7 +178,7 @@ def check_cases(cases: list[dict], rep: Report, known: dict) -> None:
         if repeated:
             rep.violation(f"a form is revisited at step {repeated[0]} (after {repeated[1]}): the rewriter cycles", info)
         if warned:
-            rep.violation(f"no rule-free form reached within 5000 steps from a {n}-node input", info)
+            rep.violation(f"no rule-free form reached within 4*size^2+8 = {4 * n * n + 8} steps from a {n}-node input", info)
         elif steps > 4 * n * n + 8:
             rep.violation(f"{steps} steps for a {n}-node input exceeds 4*size^2+8", info)
         if n <= 20 and steps > 1000:
